@@ -192,9 +192,11 @@ func (fl optFlow) presentUsesGiven(ci *FC, g []Atom) bool {
 	if len(matched) == 0 {
 		return false
 	}
-	fi := ci.p.info(ci.fn)
 	for _, ii := range matched {
 		b := ii.in.Block()
+		// (the branch, the default call and the setter may all live in a new helper: the
+		// question is asked of the function that contains the branch)
+		fi := ci.p.info(b.Parent())
 		for slot, s := range b.Succs {
 			if !edges[Edge{b, slot, ii.site}] {
 				continue
